@@ -249,18 +249,60 @@ class Engine:
                     self.model = None
 
     def check(self, *cs):
+        """-> model | True (satisfiable, no model at hand) | None (unsatisfiable)"""
         t = time.time()
         self.solver.push()
         self.solver.add(*cs)
+        self.solver.set('timeout', min(self.solver_timeout_ms, 3000))
         r = self.solver.check()
         m = self.solver.model() if r == z3.sat else None
         self.solver.pop()
+        if r == z3.unknown:
+            # sums of symbolic 64-bit lengths: hand the same query to cvc5's integer encoding of bit-vector arithmetic
+            r = self._cvc5_branch(list(self.solver.assertions()) + list(cs))
+            if r == z3.sat:
+                m = True
+        if r == z3.unknown:
+            self.solver.push()
+            self.solver.add(*cs)
+            self.solver.set('timeout', self.solver_timeout_ms)
+            r = self.solver.check()
+            m = self.solver.model() if r == z3.sat else None
+            self.solver.pop()
         dt = time.time() - t
         self.stats['checks'] += 1
         self.stats['solver_s'] += dt
         if r == z3.unknown:
             raise Inconclusive('solver returned unknown (%.1fs) on a branch condition' % dt)
         return m
+
+    def _cvc5_branch(self, constraints):
+        import subprocess, tempfile, os
+        self.stats['cvc5_branch_queries'] = self.stats.get('cvc5_branch_queries', 0) + 1
+        s = z3.Solver()
+        s.add(*constraints)
+        txt = '(set-logic ALL)\n' + s.to_smt2()
+        d = os.environ.get('VERIF_WORK', '/verif/.work')
+        with tempfile.NamedTemporaryFile('w', suffix='.smt2', dir=d if os.path.isdir(d) else None, delete=False) as f:
+            f.write(txt)
+            path = f.name
+        try:
+            o = subprocess.run(['cvc5', '--lang', 'smt2', '--solve-bv-as-int=sum', '--tlimit=30000', path], capture_output=True, text=True)
+            out = o.stdout.strip()
+            if '(error' in out or '(error' in o.stderr:
+                return z3.unknown
+            if out.startswith('unsat'):
+                return z3.unsat
+            if out.startswith('sat'):
+                return z3.sat
+            return z3.unknown
+        except FileNotFoundError:
+            return z3.unknown
+        finally:
+            try:
+                os.unlink(path)
+            except OSError:
+                pass
 
     def feasible(self):
         """is the current path condition satisfiable at all?"""
@@ -269,7 +311,8 @@ class Engine:
         m = self.check()
         if m is None:
             return False
-        self.model = m
+        if isinstance(m, z3.ModelRef):
+            self.model = m
         return True
 
     def decide(self, cond):
@@ -317,13 +360,13 @@ class Engine:
             if t_ok and f_ok:
                 self.pending.append(self.trace + [False])
                 ch = True
-                if mt is not None:
+                if isinstance(mt, z3.ModelRef):
                     self.model = mt
             elif t_ok:
                 ch = True
             elif f_ok:
                 ch = False
-                if mf is not None:
+                if isinstance(mf, z3.ModelRef):
                     self.model = mf
             else:
                 raise Infeasible()
